@@ -298,6 +298,7 @@ fn build_context_evaluator(scope: &Scope, context: &Context) -> Result<Evaluator
   scope.pop();
   Ok(Box::new(move |scope: &Scope| {
     let mut evaluated_context = FeelContext::default();
+    scope.push(FeelContext::default());
     for (opt_name, evaluator) in &entry_evaluators {
       match opt_name {
         Some(name) => {
@@ -306,10 +307,13 @@ fn build_context_evaluator(scope: &Scope, context: &Context) -> Result<Evaluator
           evaluated_context.set_entry(name, value);
         }
         None => {
-          return evaluator(scope);
+          let value = evaluator(scope);
+          scope.pop();
+          return value;
         }
       }
     }
+    scope.pop();
     Value::Context(evaluated_context)
   }))
 }
